@@ -15,14 +15,19 @@ from props import c04_gen as G
 
 ID = "C04"
 LEAN_MODEL_TARGETS = ["drv_c04"]
-LEAN_PROOF_TARGETS = ["PyroProps.C04"]
-AUDIT_FILES = ["PyroModel/Classes.lean", "PyroModel/Gen/C04.lean", "PyroProofs/Classes.lean", "PyroProps/C04.lean"]
+LEAN_PROOF_TARGETS = ["PyroProps.C04Src", "PyroProps.C04"]
+AUDIT_FILES = ["PyroModel/Classes.lean", "PyroModel/Gen/C04.lean", "PyroProofs/Classes.lean", "PyroProps/C04.lean",
+               "PyroModel/ClassesSrc.lean", "PyroModel/Gen/C04Src.lean", "PyroProps/C04Src.lean"]
 THEOREMS = ["Pyro.C04.C04_closed", "Pyro.C04.C04_closed_loads", "Pyro.C04.C04_closed_loadsCall",
             "Pyro.C04.C04_plain_input", "Pyro.C04.C04_dunder", "Pyro.C04.C04_unknown", "Pyro.C04.C04_exc_sources",
             "Pyro.C04.C04_effects", "Pyro.C04.C04_effects_loads", "Pyro.C04.C04_effects_loadsCall",
             "Pyro.C04.C04_fuel_sufficient",
             "Pyro.C04.C04_gen_tables", "Pyro.C04.C04_gen_all_exceptions", "Pyro.C04.C04_gen_struct",
-            "Pyro.C04.C04_ext_converted", "Pyro.C04.C04_gen_probes", "Pyro.C04.C04_gen_ext_codes"]
+            "Pyro.C04.C04_ext_converted", "Pyro.C04.C04_gen_probes", "Pyro.C04.C04_gen_ext_codes",
+            "Pyro.C04.C04_makeException_translated", "Pyro.C04.C04_dictToClass_translated",
+            "Pyro.C04.C04_dictToClassFix_translated", "Pyro.C04.C04_recreate_translated", "Pyro.C04.C04_recreate_unique",
+            "Pyro.C04.C04_source_dunder", "Pyro.C04.C04_source_unknown", "Pyro.C04.C04_source_closed",
+            "Pyro.C04.C04_source_effects", "Pyro.C04.C04_source_closed_fix"]
 SUITES = ["serpent", "marshal", "json", "msgpack"]
 RULE = ("payload trees (containers to depth 5, class-tagged dicts at any depth, wrapper chains) drawn from VERIF_SEED; tags: the nine "
         "hard-coded names, every name of vars(Pyro5.errors) / vars(builtins) / vars(sqlite3) bare and behind builtins./exceptions./"
@@ -48,7 +53,14 @@ SERS = ["serpent", "marshal", "json", "msgpack"]
 
 
 def extract():
-    return c04_extract.extract()
+    text = c04_extract.extract()
+    # the transcription of make_exception / dict_to_class / recreate_classes (sound by refusal: Untranslatable = broken tie)
+    from props import c04_tr
+    common.repo_on_path()
+    from Pyro5 import serializers
+    src = c04_tr.translate(serializers)
+    common.write_if_changed(os.path.join(common.LEAN, "PyroModel", "Gen", "C04Src.lean"), src)
+    return text
 
 
 # ------------------------------------------------------------------------------------------------
@@ -779,6 +791,16 @@ def _run_cases(ctx, R, cases, do_model):
         for line, (rc, rconv, rimp), out, meta in zip(lines, reals, outs, metas):
             case, ser, op, data, reg, lit = meta
             parts = out.split(" ")
+            if parts and parts[-1].startswith("src="):
+                if parts[-1] != "src=same":
+                    # the transcription of the source (Gen/C04Src.lean) and the hand model disagree on this literal tree
+                    ctx.mismatch(ser, {"line": line[:900], "ser": ser, "op": op, "data": data.hex(), "reg": reg,
+                                       "literal": repr(lit)[:400], "what": "transcription of the source != model"},
+                                 "transcription: differs", out[:300])
+                parts = parts[:-1]
+                out = " ".join(parts)
+            else:
+                parts = []
             if len(parts) < 3:
                 ctx.mismatch(ser, {"line": line[:600], "ser": ser, "op": op, "data": data.hex(), "reg": reg}, rc[:300], out[:300])
                 continue
